@@ -472,6 +472,8 @@ def simulate(script: dict) -> SRun:
             run.end = "stepcap"
         except TimeCap:
             run.end = "timecap"
+        except BaseException as exc:  # noqa: BLE001
+            run.end = "escaped:" + type(exc).__name__
     finally:
         world.closed = True
         run.events = world.events
